@@ -32,13 +32,17 @@ from .approx import _b1r, _b2r, _f, _f1r, _f2w, _i1r, _i1w, _i2r, _i2w, _tuple, 
 # --- machinery used by ExpectationPropagation class --- #
 
 
-@numba_jit(_void(_f2w, _f1r, _i1r, _i2r))
-def reallocate_unphased(edges_likelihood, mutations_phase, mutations_block, blocks_edges):
+@numba_jit(_void(_f2w, _f1r, _i1r, _i1r, _i2r))
+def reallocate_unphased(
+    edges_likelihood, mutations_phase, mutations_edge, mutations_block, blocks_edges
+):
     """
     Add a proportion of each unphased singleton mutation to one of the two
-    edges to which it maps
+    edges to which it maps. The phase of a mutation is the probability that
+    it lies on the edge it is currently mapped to (`mutations_edge`).
     """
     assert mutations_phase.size == mutations_block.size
+    assert mutations_edge.size == mutations_block.size
     assert blocks_edges.shape[1] == 2
 
     num_edges = edges_likelihood.shape[0]
@@ -59,6 +63,8 @@ def reallocate_unphased(edges_likelihood, mutations_phase, mutations_block, bloc
         if np.isnan(mutations_phase[m]):  # TODO: fix rare numerical issue
             continue
         assert 0.0 <= mutations_phase[m] <= 1.0
+        if mutations_edge[m] == j:
+            i, j = j, i
         edges_likelihood[i, 0] += mutations_phase[m]
         edges_likelihood[j, 0] += 1 - mutations_phase[m]
     assert np.isclose(num_unphased, np.sum(edges_likelihood[edges_unphased, 0]))
